@@ -31,7 +31,44 @@ def contents(fog):
     return out
 
 
+def do_reject(fog, ev, n, ctx):
+    from . import badargs as ba
+
+    mod, fogmod, exc = ctx
+    typing = __import__("importlib").import_module("trie.typing")
+    e, arg, kind = ev["entry"], ev["arg"], ev["kind"]
+    bad = ba.pick(ba.NOT_SEQUENCE, n) if kind == "notsequence" else ba.pick(ba.BAD_NIBBLES, n)
+    some = contents(fog)[0] if contents(fog) else ()
+    try:
+        if e == "explore":
+            if arg == "prefix":
+                fog.explore(bad, ())
+            else:
+                fog.explore(some, [bad] if kind == "badnibble" else bad)
+        elif e == "mark_all_complete":
+            fog.mark_all_complete([bad])
+        elif e == "nearest_unknown":
+            fog.nearest_unknown(bad)
+        elif e == "nearest_right":
+            fog.nearest_right(bad)
+        elif e == "Nibbles":
+            typing.Nibbles(bad)
+        else:
+            return "harness-unknown-entry", e
+    except Exception as x:  # noqa
+        if ba.exc_matches(x, ev["exc"], exc):
+            return "rejected", type(x).__name__
+        return "wrongexc", type(x).__name__ + ": " + str(x)[:100]
+    return "accepted", None
+
+
 def replay_line(obj, ctx, opts):
+    from .common import c18_relabel
+
+    return c18_relabel(obj, replay_one(obj, ctx, opts), lambda o: replay_one(o, ctx, opts))
+
+
+def replay_one(obj, ctx, opts):
     mod, fogmod, exc = ctx
     h, st = obj["h"], obj["st"]
     out = []
@@ -41,6 +78,16 @@ def replay_line(obj, ctx, opts):
         is_last = idx == len(h) - 1
         olds.append((fog, contents(fog)))
         before = contents(fog)
+        if ev["a"] == "reject":
+            verdict, detail = do_reject(fog, ev, idx, ctx)
+            what = {"entry": ev["entry"], "arg": ev["arg"], "kind": ev["kind"], "detail": detail}
+            if verdict == "accepted":
+                out.append(("C18", "ill-formed-call-not-refused", what))
+            elif verdict != "rejected":
+                out.append(("C18", "ill-formed-call-refused-with-the-wrong-exception", dict(what, expected=ev["exc"])))
+            if contents(fog) != before:
+                out.append(("C18", "refused-call-changed-state", what))
+            continue
         try:
             if ev["a"] == "explore":
                 segs = [tuple(s) for s in ev["segs"]]
@@ -137,6 +184,8 @@ def stats(obj, ctx):
         tags.append("complete-fog")
     if h and not h[-1]["ok"]:
         tags.append("refused-" + h[-1]["a"])
+    if any(e["a"] == "reject" for e in h[:-1]):
+        tags.append("rejected-call-in-mid-history")
     if any(len(e["acc"]) > 1 for e in st["nu"]):
         tags.append("query-with-two-acceptable-neighbours")
     if any(a["exc"] == "FullDirectionalVisibility" for e in st["nr"] for a in e["acc"]):
